@@ -523,6 +523,9 @@ type chainCase struct {
 	// name (objects, and whatever the passes derive from field names and
 	// shapes) exists in two packages.
 	mirror bool
+	// users: the root's type is also the type of three more objects (Aa1, Aa2
+	// right after the root, Zz1 after the support objects).
+	users bool
 }
 
 func (c chainCase) spec() irgen.SchemaSpec {
@@ -534,6 +537,24 @@ func (c chainCase) spec() irgen.SchemaSpec {
 		s = irgen.WithField(c.term, true)
 	default:
 		s = irgen.WithField(c.term, false)
+	}
+	// aliases that nest another alias (Labels: []Label, Label: string): what
+	// the extra leaves ref(p.LA) / ref(p.MA) point to
+	pk := &s.Pkgs[0]
+	pk.Objects = append(pk.Objects,
+		irgen.ObjSpec{Name: "LA", T: irgen.Array(irgen.Ref(irgen.Pkg + ".A"))},
+		irgen.ObjSpec{Name: "MA", T: irgen.Map(irgen.Ref(irgen.Pkg + ".A"))})
+	if c.users {
+		// the same type used by several objects, some walked before the
+		// support objects and one after them (passes keep state across the
+		// objects of one run)
+		root := pk.Objects[0]
+		var objs []irgen.ObjSpec
+		objs = append(objs, root, irgen.ObjSpec{Name: "Aa1", T: root.T}, irgen.ObjSpec{Name: "Aa2", T: root.T})
+		objs = append(objs, pk.Objects[1:]...)
+		objs = append(objs, irgen.ObjSpec{Name: "Zz1", T: root.T})
+		pk.Objects = objs
+		s.Name += "+users"
 	}
 	if c.mirror {
 		return mirrorSpec(s)
@@ -591,6 +612,10 @@ func (c chainCase) Size() int {
 		c.mirror = false
 		return c.Size() + 1
 	}
+	if c.users {
+		c.users = false
+		return c.Size() + 1
+	}
 	switch c.kind {
 	case "I":
 		n := c.term.Size()
@@ -618,14 +643,17 @@ func (c chainCase) Parents() []Case {
 	}
 	switch c.kind {
 	case "I":
+		if c.users {
+			out = append(out, chainCase{kind: "I", form: c.form, term: c.term, mirror: c.mirror})
+		}
 		if c.form == "optfield" {
-			out = append(out, chainCase{kind: "I", form: "field", term: c.term, mirror: c.mirror})
+			out = append(out, chainCase{kind: "I", form: "field", term: c.term, mirror: c.mirror, users: c.users})
 		}
 		if c.form == "field" {
-			out = append(out, chainCase{kind: "I", form: "root", term: c.term, mirror: c.mirror})
+			out = append(out, chainCase{kind: "I", form: "root", term: c.term, mirror: c.mirror, users: c.users})
 		}
 		for _, r := range c.term.Reductions() {
-			out = append(out, chainCase{kind: "I", form: c.form, term: r, mirror: c.mirror})
+			out = append(out, chainCase{kind: "I", form: c.form, term: r, mirror: c.mirror, users: c.users})
 		}
 	case "G":
 		for _, r := range c.g.Reductions() {
@@ -638,7 +666,7 @@ func (c chainCase) Parents() []Case {
 func (c chainCase) detail() replayDetail {
 	switch c.kind {
 	case "I":
-		return detail("chain", map[string]any{"kind": "I", "form": c.form, "term": c.term, "mirror": c.mirror})
+		return detail("chain", map[string]any{"kind": "I", "form": c.form, "term": c.term, "mirror": c.mirror, "users": c.users})
 	case "seed":
 		return detail("chain", map[string]any{"kind": "seed", "seed": c.seed.Name})
 	default:
@@ -718,9 +746,10 @@ func (c chainCase) Eval() []vx.Failure {
 func partChain(d *driver, thorough bool, girs []gIR) int {
 	var cases []Case
 	depth := 2
-	cfg := irgen.Config{Depth: depth}
+	leaves := append(irgen.DefaultLeaves(), irgen.Ref(irgen.Pkg+".LA"), irgen.Ref(irgen.Pkg+".MA"))
+	cfg := irgen.Config{Depth: depth, Leaves: leaves}
 	if thorough {
-		cfg = irgen.Config{Depth: 3, InnerLeaves: []irgen.Term{irgen.S("string"), irgen.Ref(irgen.Pkg + ".S"), irgen.Ref(irgen.Pkg + ".E"), irgen.Ref(irgen.Pkg + ".A"), irgen.ConstRef(irgen.Pkg + ".E"), irgen.Enum("str"), irgen.Const("str")}}
+		cfg = irgen.Config{Depth: 3, Leaves: leaves, InnerLeaves: []irgen.Term{irgen.S("string"), irgen.Ref(irgen.Pkg + ".S"), irgen.Ref(irgen.Pkg + ".E"), irgen.Ref(irgen.Pkg + ".A"), irgen.Ref(irgen.Pkg + ".LA"), irgen.ConstRef(irgen.Pkg + ".E"), irgen.Enum("str"), irgen.Const("str")}}
 	}
 	for _, t := range irgen.Types(cfg) {
 		if discOverNonStruct(t) {
@@ -733,6 +762,7 @@ func partChain(d *driver, thorough bool, girs []gIR) int {
 		for _, form := range []string{"root", "field", "optfield"} {
 			cases = append(cases, chainCase{kind: "I", form: form, term: t})
 			cases = append(cases, chainCase{kind: "I", form: form, term: t, mirror: true})
+			cases = append(cases, chainCase{kind: "I", form: form, term: t, users: true})
 		}
 	}
 	for _, s := range append(irgen.SeedSchemas(), c05Seeds()...) {
@@ -1577,8 +1607,8 @@ func partFilter(d *driver, thorough bool, gs []GSchema) int {
 		maxG["cue"] = 5
 	}
 	for _, g := range gs {
-		if strings.HasPrefix(g.Name, "pair/") {
-			continue
+		if strings.HasPrefix(g.Name, "pair/") || (!thorough && strings.HasPrefix(g.Name, "users/")) {
+			continue // quick: the several-users shapes go through the allow-lists of the seeds only
 		}
 		var names []string
 		for _, o := range g.Objs {
@@ -1647,9 +1677,10 @@ func replay(r *vx.Run) int {
 			Format string     `json:"format"`
 			Schema GSchema    `json:"schema"`
 			Mirror bool       `json:"mirror"`
+			Users  bool       `json:"users"`
 		}
 		mustUnmarshal(det.Data, &v)
-		cc := chainCase{kind: v.Kind, form: v.Form, term: v.Term, format: v.Format, g: v.Schema, mirror: v.Mirror}
+		cc := chainCase{kind: v.Kind, form: v.Form, term: v.Term, format: v.Format, g: v.Schema, mirror: v.Mirror, users: v.Users}
 		if v.Kind == "seed" {
 			s, ok := seedByName(v.Seed)
 			if !ok {
